@@ -182,6 +182,16 @@ def item(c):
         if op in ('add', 'mul', 'matmul'):
             exact = res.bits < mb
 
+    if form == 'binary' and c.get('mutate_result') and isinstance(res, M.Matrix):
+        # results are independent objects: overwriting an element of the result must not change the operand
+        # (checked by also observing A afterwards)
+        snapshot = [[res[i, j] for j in range(res.columns)] for i in range(res.rows)]
+        res[0, 0] = pyrtl.Const((1 << res.bits) - 1, bitwidth=res.bits)
+        if res.rows * res.columns > 1:
+            res[res.rows - 1, res.columns - 1] = pyrtl.Const(0, bitwidth=res.bits)
+        keep = A
+        res = M.Matrix(res.rows, res.columns, res.bits, value=snapshot, max_bits=mb)
+
     def oracle(ins):
         a = decA(ins)
         b = decB(ins) if two else None
@@ -435,6 +445,15 @@ def cases(tier, seed):
         out.append({'op': 'matmul', 'r': r, 'c': k, 'bits': b1, 'r2': r2, 'c2': k2, 'bits2': b2})
         out.append({'op': 'dot', 'r': r, 'c': k, 'bits': b1, 'r2': r2, 'c2': k2, 'bits2': b2})
     out.append({'op': 'matmul', 'r': 2, 'c': 2, 'bits': 3, 'r2': 2, 'c2': 2, 'bits2': 3, 'max_bits': 5})
+    for (r, k) in ((2, 2), (1, 3)):
+        for op, extra in (('pow', {'p': 1}), ('pow', {'p': 0}), ('pow', {'p': 2}), ('transpose', {}), ('copy', {}), ('reversed', {}),
+                          ('flatten', {'order': 'C'}), ('reshape', {'shape': -1, 'order': 'C'}), ('getitem', {'key': [None, None]}),
+                          ('add', {'bits2': 2}), ('sub', {'bits2': 2}), ('mul', {'bits2': 1}), ('matmul', {'r2': k, 'c2': 2, 'bits2': 1})):
+            if op in ('pow',) and r != k:
+                continue
+            if op == 'matmul' and False:
+                continue
+            out.append(dict({'op': op, 'r': r, 'c': k, 'bits': 2, 'mutate_result': True}, **extra))
     for form in ('inplace', 'inplace_after_view'):
         for (r, k) in ((1, 1), (2, 2), (2, 3)):
             for bits, b2 in ((3, 3), (3, 2), (2, 4)):
@@ -452,7 +471,7 @@ def cases(tier, seed):
 
 
 def site_of(c):
-    return 'C19:%s%s' % (c['op'], ':' + c['form'] if c.get('form') else '')
+    return 'C19:%s%s%s' % (c['op'], ':' + c['form'] if c.get('form') else '', ':mutate-result' if c.get('mutate_result') else '')
 
 
 def run_case(case, ob, tier):
